@@ -792,7 +792,7 @@ def run_checks(prop, ctx, vlib, want=("C08", "C01")):
 
     seen = set()
     nt = 0
-    docs = []
+    docs, xdocs = [], []
     for c in cases:
         arch, tyi, v = c["arch"], c["tyi"], c["v"]
         if c.get("mchk", "").startswith("UNSUPPORTED") and c["save"] == "UNSUPPORTED":
@@ -864,11 +864,17 @@ def run_checks(prop, ctx, vlib, want=("C08", "C01")):
             rec.update(judge="HOLD", why="model and implementation differ, the property holds on this input")
             if len(diffs) < 25:
                 diffs.append(rec)
-        if saved and prop_ok and arch == "json":
+        if saved and arch == "json" and prop_ok:
             docs.append(c)
+        if saved and arch == "xml" and agree and mchk.find("PROP fail:not-well-formed") < 0 and mchk.find("PROP fail:bom") < 0:
+            xdocs.append(c)
 
     # ---------------- stage 3: re-renderings by independent emitters
     r3 = stage3_json(vlib, impl, model, rng, tier, docs, known_ids, want, bump, stats)
+    r3x = stage3_xml(vlib, impl, model, rng, tier, xdocs, known_ids, want, bump, stats)
+    for k in ("failing", "diffs", "notes", "samples"):
+        r3[k] = r3[k] + r3x[k]
+    r3["evaluations"] += r3x["evaluations"]
     failing += r3["failing"]
     diffs += r3["diffs"]
     notes += r3["notes"]
@@ -1103,3 +1109,336 @@ def replay(rp, vlib):
         res["original_document_loads_as"] = rp.get("original_document_loads_as")
         res["property_holds"] = rp.get("original_document_loads_as") == a
     return res
+
+
+# ================================================================== XML: independent emitter and stage 3
+def xdom_from_model(ans):
+    """m.parse xml answer 'DOM <json>' -> ('e', name, [(k, v)..], [children]) / ('t', text)"""
+    def conv(x):
+        if x[0] == "t":
+            return ("t", bytes.fromhex(x[1]).decode("utf-8"))
+        return ("e", bytes.fromhex(x[1]).decode("utf-8"), [(bytes.fromhex(k).decode("utf-8"), bytes.fromhex(v).decode("utf-8")) for k, v in x[2]],
+                [conv(c) for c in x[3]])
+    return conv(json.loads(ans[4:]))
+
+
+def xdom_norm(x, sort_attrs=True):
+    """drop white-space-only text between element siblings (formatting); attributes as a sorted list"""
+    if x[0] == "t":
+        return x
+    ch = [xdom_norm(c, sort_attrs) for c in x[3]]
+    if any(c[0] == "e" for c in ch):
+        ch = [c for c in ch if not (c[0] == "t" and all(k in " \t\n\r" for k in c[1]))]
+    return ("e", x[1], sorted(x[2]) if sort_attrs else list(x[2]), ch)
+
+
+def xdom_from_et(data):
+    """xml.etree.ElementTree (expat) as a second opinion; REJECT when not well-formed"""
+    import xml.etree.ElementTree as ET
+    try:
+        root = ET.fromstring(data)
+    except Exception:
+        return REJECT
+
+    def conv(e):
+        ch = []
+        if e.text:
+            ch.append(("t", e.text))
+        for c in e:
+            ch.append(conv(c))
+            if c.tail:
+                ch.append(("t", c.tail))
+        return ("e", e.tag, list(e.attrib.items()), ch)
+    return conv(root)
+
+
+XWS = [" ", "\t", "\n", "\r\n", "\r", "  ", "\n\t"]
+
+
+def x_ws(rng, opts, need=False):
+    if not opts["ws"]:
+        return " " if need else ""
+    s = "".join(rng.choice(XWS) for _ in range(rng.choice([0, 1, 1, 2])))
+    return s or (" " if need else "")
+
+
+def x_char_ref(rng, c):
+    o = ord(c)
+    k = rng.random()
+    if k < 0.5:
+        return "&#%d;" % o
+    h = "%x" % o
+    if rng.random() < 0.5:
+        h = h.upper()
+    if rng.random() < 0.2:
+        h = "00" + h
+    return "&#x%s;" % h
+
+
+ENT = {"&": "&amp;", "<": "&lt;", ">": "&gt;", '"': "&quot;", "'": "&apos;"}
+
+
+def x_text(rng, s, opts):
+    if opts["cdata"] and s and "]]>" not in s and "\r" not in s and rng.random() < 0.5:
+        return "<![CDATA[" + s + "]]>"
+    out = []
+    for i, c in enumerate(s):
+        must = c in "<&" or c == "\r" or (c == ">" and s[max(0, i - 2):i] == "]]")
+        k = rng.random()
+        if c in ENT and (must or (opts["esc"] != "lit" and k < 0.5)) and rng.random() < 0.6:
+            out.append(ENT[c])
+        elif must or opts["esc"] == "all" or (opts["esc"] == "mix" and k < 0.3):
+            out.append(x_char_ref(rng, c))
+        else:
+            out.append(c)
+    t = "".join(out)
+    if opts["split"] and len(s) >= 2:
+        # character data interrupted by a comment / PI / CDATA boundary (class F44)
+        cut = rng.randrange(1, len(s))
+        a, b = x_text(rng, s[:cut], dict(opts, split=False, cdata=False)), x_text(rng, s[cut:], dict(opts, split=False, cdata=False))
+        mid = rng.choice(["<!--c-->", "<?p d?>", "<![CDATA[]]>"])
+        return a + mid + b
+    return t
+
+
+def x_attr(rng, v, opts):
+    q = rng.choice("\"'") if opts["esc"] != "lit" or rng.random() < 0.3 else '"'
+    out = []
+    for c in v:
+        must = c in "<&" or c == q or c in "\t\n\r"
+        k = rng.random()
+        if c in ENT and (must or (opts["esc"] != "lit" and k < 0.4)) and rng.random() < 0.6:
+            out.append(ENT[c])
+        elif must or opts["esc"] == "all" or (opts["esc"] == "mix" and k < 0.3):
+            out.append(x_char_ref(rng, c))
+        else:
+            out.append(c)
+    return q + "".join(out) + q
+
+
+def x_misc(rng, opts):
+    if not opts["misc"] or rng.random() < 0.6:
+        return ""
+    return rng.choice(["<!-- note -->", "<!---->", "<?proc?>", "<?proc  a=b ?>", "<!-- <x/> & -->"])
+
+
+def emit_xml_node(rng, x, opts):
+    if x[0] == "t":
+        return x_text(rng, x[1], opts)
+    _, name, attrs, ch = x
+    attrs = list(attrs)
+    if opts["order"]:
+        rng.shuffle(attrs)
+    s = "<" + name
+    for k, v in attrs:
+        s += x_ws(rng, opts, need=True) + k + x_ws(rng, opts) + "=" + x_ws(rng, opts) + x_attr(rng, v, opts)
+    if not ch and rng.random() < 0.6:
+        return s + x_ws(rng, opts) + "/>"
+    s += x_ws(rng, opts) + ">"
+    elem_only = bool(ch) and all(c[0] == "e" for c in ch)
+    for c in ch:
+        if elem_only:
+            s += x_ws(rng, opts) + x_misc(rng, opts) + x_ws(rng, opts)
+        s += emit_xml_node(rng, c, opts)
+    if elem_only:
+        s += x_ws(rng, opts) + x_misc(rng, opts) + x_ws(rng, opts)
+    return s + "</" + name + x_ws(rng, opts) + ">"
+
+
+ENC_DECL = {"utf8": ["UTF-8", "utf-8"], "utf16le": ["UTF-16", "utf-16"], "utf16be": ["UTF-16", "UTF-16"], "utf32le": ["UTF-32"], "utf32be": ["UTF-32"]}
+
+
+def emit_xml_doc(rng, root, opts, enc, bom):
+    s = ""
+    k = rng.random()
+    has_decl = opts["decl"] != "none"
+    if has_decl:
+        q = rng.choice("\"'")
+        s = "<?xml version=" + q + "1.0" + q
+        if opts["decl"] == "enc":
+            s += " encoding=" + q + rng.choice(ENC_DECL[enc]) + q
+        if rng.random() < 0.2:
+            s += " standalone=" + q + rng.choice(["yes", "no"]) + q
+        s += rng.choice(["", " "]) + "?>"
+    lead_ok = has_decl or enc == "utf8" or bom          # pugixml detects a BOM-less UTF-16/32 stream by its leading '<'
+    if lead_ok and (has_decl or opts["ws"]):
+        s += x_ws(rng, opts) if has_decl else ""
+    s += x_misc(rng, opts) if (has_decl or enc == "utf8" or bom) else ""
+    s += x_ws(rng, opts) if has_decl or s else ""
+    s += emit_xml_node(rng, root, opts)
+    s += x_ws(rng, opts) + x_misc(rng, opts) + x_ws(rng, opts)
+    return s
+
+
+XRENDER_OPTS = [dict(ws=0, esc="lit", order=False, misc=False, cdata=False, split=False, decl="plain"),
+                dict(ws=1, esc="lit", order=False, misc=False, cdata=False, split=False, decl="none"),
+                dict(ws=1, esc="mix", order=True, misc=True, cdata=False, split=False, decl="enc"),
+                dict(ws=1, esc="all", order=True, misc=True, cdata=False, split=False, decl="plain"),
+                dict(ws=0, esc="mix", order=True, misc=False, cdata=True, split=False, decl="none"),
+                dict(ws=1, esc="mix", order=False, misc=True, cdata=True, split=False, decl="enc"),
+                dict(ws=0, esc="lit", order=False, misc=False, cdata=False, split=True, decl="plain")]
+
+
+def pugi_detect(b):
+    """pugixml guess_buffer_encoding (auto) for the encodings in play"""
+    d = list(b[:4]) + [0] * 4
+    if d[:4] == [0, 0, 0xFE, 0xFF]:
+        return "utf32be"
+    if d[:4] == [0xFF, 0xFE, 0, 0]:
+        return "utf32le"
+    if d[:2] == [0xFE, 0xFF]:
+        return "utf16be"
+    if d[:2] == [0xFF, 0xFE]:
+        return "utf16le"
+    if d[:3] == [0xEF, 0xBB, 0xBF]:
+        return "utf8"
+    if d[:4] == [0, 0, 0, 0x3C]:
+        return "utf32be"
+    if d[:4] == [0x3C, 0, 0, 0]:
+        return "utf32le"
+    if d[:4] == [0, 0x3C, 0, 0x3F] or d[:2] == [0, 0x3C]:
+        return "utf16be"
+    if d[:4] == [0x3C, 0, 0x3F, 0] or d[:2] == [0x3C, 0]:
+        return "utf16le"
+    return "utf8"
+
+
+def stage3_xml(vlib, impl, model, rng, tier, docs, known_ids, want, bump, stats):
+    failing, diffs, notes, samples = [], [], [], []
+    per_doc = 2 if tier == "quick" else 4
+    docs = docs[:(900 if tier == "quick" else 9000)]
+    # reference DOM of every produced document
+    plines = ["m.parse xml %s %s" % (c["enc"], c["save"][3:]) for c in docs]
+    pout = vlib.run_driver(model, plines)
+    items, checks = [], []
+    for c, po in zip(docs, pout):
+        if not po.startswith("DOM "):
+            continue
+        raw = bytes.fromhex(c["save"][3:])
+        text = decode_bytes(raw, c["enc"], c["bom"] == "1")
+        if text is None:
+            continue
+        dom = xdom_from_model(po)
+        c["xdom"] = dom
+        colon = ":" in text.replace("<?xml", "")
+        if c["enc"] in ("utf8",) and not colon:
+            et = xdom_from_et(text.encode("utf-8"))
+            stats["refparser_crosschecks"] += 1
+            ok = et is not REJECT and xdom_norm(et) == xdom_norm(dom)
+            bump("refparser xml " + ("agrees with ElementTree" if ok else "DISAGREES with ElementTree"))
+            if not ok and len(diffs) < 25:
+                diffs.append(dict(driver="jx-model", case=plines[0][:20], judge="HOLD", document=text[:300],
+                                  why="the extracted XML reference parser and xml.etree.ElementTree disagree on a produced document"))
+        base = len(items)
+        items.append(dict(kind="orig", c=c, medium="mem", enc="utf8", data=re.sub(r"^<\?xml[^>]*\?>", "", text).encode("utf-8"), base=base, opts=None, text=text))
+        for _ in range(per_doc):
+            o = dict(rng.choice(XRENDER_OPTS))
+            medium = rng.choice(["mem", "stream", "stream"])
+            enc = "utf8" if medium == "mem" else rng.choice(ENCODINGS)
+            bom = (medium == "stream" and rng.random() < 0.5) or (medium == "mem" and rng.random() < 0.15)
+            if o["decl"] == "none" and enc != "utf8" and not bom:
+                o["decl"] = "enc"               # 4.3.3: a BOM or an encoding declaration is needed
+            # white space between element siblings is formatting (compact and pretty output carry the same data)
+            t2 = emit_xml_doc(rng, xdom_norm(dom, False), o, enc, bom)
+            items.append(dict(kind="rerender", c=c, medium=medium, enc=enc, data=encode_text(t2, enc, bom), base=base, opts=o, text=t2, bom=bom))
+            checks.append((len(items) - 1, "m.parse xml utf8 %s" % t2.encode("utf-8").hex()))
+    # every re-rendering: same data model for the reference parser (and for ElementTree)
+    cout = vlib.run_driver(model, [l for _, l in checks])
+    for (k, _), o in zip(checks, cout):
+        it = items[k]
+        ref = xdom_norm(items[it["base"]]["c"]["xdom"])
+        stats["refparser_crosschecks"] += 1
+        ok = o.startswith("DOM ") and xdom_norm(xdom_from_model(o)) == ref
+        if ok and ":" not in it["text"].replace("<?xml", "") and not re.search(r"encoding=.UTF-(16|32)", it["text"], re.I):
+            et = xdom_from_et(it["text"].encode("utf-8"))
+            ok = et is not REJECT and xdom_norm(et) == ref
+        bump("rendering " + ("has the same data model (reference parser, ElementTree)" if ok else "DIFFERS in data model: emitter or reference parser wrong"))
+        if not ok and len(diffs) < 25:
+            diffs.append(dict(driver="jx-model", case="m.parse xml", model=o[:300], rendering=it["text"][:400], judge="HOLD",
+                              why="a re-rendering does not have the data model of the original document for the reference parser / ElementTree"))
+    # mutated texts: acceptance set against expat
+    nm = 500 if tier == "quick" else 5000
+    mlines, mexp = [], []
+    rends = [it for it in items if it["kind"] == "rerender" and ":" not in it["text"].replace("<?xml", "") and "encoding=" not in it["text"]]
+    for _ in range(nm if rends else 0):
+        chars = list(rng.choice(rends)["text"])
+        for _ in range(rng.choice([1, 1, 2])):
+            k = rng.random()
+            pos = rng.randrange(0, len(chars) + 1)
+            if k < 0.35 and chars:
+                del chars[min(pos, len(chars) - 1)]
+            elif k < 0.7:
+                chars.insert(pos, rng.choice(list("<>&;/=\"' \n?!-[]#xa1") + ["&#0;", "&#x110000;", "&bogus;", "]]>", "--", "<a>", "</a>", "\x01", "￾"]))
+            elif chars:
+                chars[min(pos, len(chars) - 1)] = rng.choice(list("<>&;/=\"' ?!-a"))
+        t3 = "".join(chars)
+        if "<!DOCTYPE" in t3 or "<!D" in t3 or ":" in t3:
+            continue
+        mlines.append("m.parse xml utf8 %s" % (t3.encode("utf-8").hex() or "-"))
+        mexp.append(t3)
+    mout = vlib.run_driver(model, mlines)
+    for t3, o in zip(mexp, mout):
+        stats["refparser_crosschecks"] += 1
+        et = xdom_from_et(t3.encode("utf-8"))
+        if et is REJECT:
+            ok = o == "REJECT"
+            kind = "accepts a text expat rejects"
+        else:
+            ok = o.startswith("DOM ") and xdom_norm(xdom_from_model(o), False) == xdom_norm(et, False)
+            kind = "rejects / reads differently a text expat accepts"
+        bump("refparser xml mutated " + ("agrees with ElementTree" if ok else "DISAGREES: " + kind))
+        if not ok and et is not REJECT and o == "REJECT":
+            # expat is lenient in places (e.g. VersionNum) and reads DOCTYPE / namespaces, which the subset excludes
+            if len(notes) < 5:
+                notes.append("reference XML parser rejects a mutated text that expat accepts: %r" % t3[:120])
+            continue
+        if not ok and len(diffs) < 25:
+            diffs.append(dict(driver="jx-model", case="m.parse xml utf8 <mutated>", model=o[:200], text=t3[:300], judge="HOLD",
+                              why="the extracted XML reference parser " + kind))
+    # loads
+    ilines = ["jx.load xml %s %d %s TT %s" % (it["medium"], it["c"]["tyi"], it["c"]["rootkey"], it["data"].hex() or "-") for it in items]
+    mlines2 = ["m.load xml %s %s %d %s TT %s" % (it["medium"], it["enc"], it["c"]["tyi"], it["c"]["rootkey"], it["data"].hex() or "-") for it in items]
+    iout = vlib.run_driver(impl, ilines)
+    mout2 = vlib.run_driver(model, mlines2)
+    for it, a, b in zip(items, iout, mout2):
+        it["impl"], it["model"] = a, b
+    for k, it in enumerate(items):
+        if it["kind"] == "orig":
+            if it["impl"] != it["model"] and not same_mod_nan(it["impl"], it["model"]) and len(diffs) < 25:
+                diffs.append(dict(driver="jx", case=ilines[k], implementation=it["impl"][:300], model=it["model"][:300], judge="HOLD",
+                                  why="model and implementation differ on the load of a produced document"))
+            continue
+        stats["rerenderings"] += 1
+        c = it["c"]
+        ref = items[it["base"]]["impl"]
+        a, b = it["impl"], it["model"]
+        o = it["opts"]
+        bump("rerender xml %s:%s ws=%d esc=%s order=%d misc=%d cdata=%d split=%d decl=%s" % (it["medium"], it["enc"], o["ws"], o["esc"], o["order"], o["misc"], o["cdata"], o["split"], o["decl"]))
+        same = a == ref or same_mod_nan(a, ref)
+        agree = a == b or same_mod_nan(a, b)
+        if same and agree:
+            continue
+        stats["disagreements"] += 1
+        explained = None
+        if agree and not same:
+            if o["split"] and "F44" in known_ids:
+                explained = "F44"
+        if explained:
+            stats["known_class_cases"] += 1
+            bump("known-class " + explained)
+            continue
+        rec = dict(driver="jx", case=ilines[k], implementation=a[:300], model=b[:300], rendering_of=c["line"][:300], encoding=it["enc"],
+                   original_document_loads_as=ref[:300], rendering=it["text"][:400], options=o)
+        if not same:
+            rec.update(judge="FAIL", why="C08: a standard rendering of the produced document (same data up to white space between elements, character references, "
+                                         "attribute order and quoting, comments, declaration, encoding) loads differently from the document itself")
+            if "C08" in want and len(failing) < 25:
+                failing.append(rec)
+        else:
+            rec.update(judge="HOLD", why="model and implementation differ on the load of a re-rendering; it loads like the original document")
+            if len(diffs) < 25:
+                diffs.append(rec)
+    for it in items[1:3]:
+        samples.append(dict(case="jx.load xml %s %d %s TT <%s %d bytes>" % (it["medium"], it["c"]["tyi"], it["c"]["rootkey"], it["enc"], len(it["data"])),
+                            rendering=it.get("text", "")[:200], implementation=it["impl"][:160], model=it["model"][:160]))
+    return dict(failing=failing, diffs=diffs, notes=notes, samples=samples, evaluations=len(plines) + len(checks) + len(mlines) + len(ilines) + len(mlines2))
